@@ -5,11 +5,15 @@ EXTENDS Bailiwick, Json
 AllPre   == {"none", "wrongid", "wrongq", "wrongidq", "tcpwrongid", "twoq", "flood"}
 NoPre    == {"none"}
 AllKinds == AnsKinds \cup RefKinds
+NoRace   == {FALSE}
+AnyRace  == {FALSE, TRUE}
+OnlyRace == {TRUE}
 
 (* every filter on: what the property demands *)
 F_sound == [IdCheck |-> TRUE, StreamIdCheck |-> TRUE, QuestionCheck |-> TRUE, GlueBailiwick |-> TRUE, GlueRoutable |-> TRUE,
             Coherent |-> TRUE, ClassCheck |-> TRUE, Progress |-> TRUE, ParentDetect |-> TRUE,
-            AnswerOwnerFilter |-> TRUE, ClearAdditional |-> TRUE, CacheOwnerFilter |-> TRUE]
+            AnswerOwnerFilter |-> TRUE, ClearAdditional |-> TRUE, CacheOwnerFilter |-> TRUE,
+            CachedLevel |-> TRUE]   \* resolveWithCachedNameservers sets level to the referral owner's label count
 (* the pinned code: nothing filters the answer section by owner before it reaches the client *)
 F_asis  == [F_sound EXCEPT !.AnswerOwnerFilter = FALSE]
 
@@ -24,6 +28,10 @@ F_nocoherent == [F_sound EXCEPT !.Coherent = FALSE]
 F_noclass    == [F_sound EXCEPT !.ClassCheck = FALSE]
 F_noprogress == [F_sound EXCEPT !.Progress = FALSE, !.ParentDetect = FALSE]
 F_nocachef   == [F_asis EXCEPT !.CacheOwnerFilter = FALSE]
+(* the pinned resolveWithCachedNameservers: rs.level++ where the fresh path assigns nlevel.  With Deep = TRUE and   *)
+(* a race move GlueSound must fail (MC_regress_nocachedlevel); with Deep = FALSE the increment is exact and         *)
+(* Containment holds (MC_nocachedlevel_shallow): the element is the label count, not the race.                      *)
+F_nocachedlevel == [F_sound EXCEPT !.CachedLevel = FALSE]
 
 Emit == Done => PrintT(ToJson(Outcome))
 (* with the cache filter off the poisoned answer comes back on the cache-hit path too *)
